@@ -8,6 +8,7 @@ unfold_paths with the per-path copy of rewritten segments (fixes/C09-1), `varian
 import PartituraModel.Proofs.C09Walk
 import PartituraModel.Proofs.C09Variant
 import PartituraModel.Proofs.C09Shape
+import PartituraModel.Proofs.C09Volta
 
 namespace C09
 open Model.Unfold
@@ -233,6 +234,41 @@ theorem refs_exact (p : APart) (vs : List Visit) (c : OObj) (hc : c ∈ (variant
       obtain ⟨hx0, hv0⟩ := copyPass_notExtra v (0 + n) _ _ c0 hc0
       exact ⟨_, hsub _ hc0', by simp [hv0, hvis], hor, hx0⟩
 
+/-- Neighbouring time points: the time points of the unfolded part form a strictly increasing sequence (each
+point's `next`/`prev` is its neighbour in that sequence, no duplicates, nothing outside the part). -/
+theorem points_strictly_sorted (p : APart) (vs : List Visit) : StrictSorted (variant p vs).points :=
+  variantPoints_sorted p.points vs _
+
+-- non-vacuity of `length_sum`: one bar with a measure and a note, played twice
+example :
+    (variant { points := [0, 2, 4], qd := [(0, 1)], objs :=
+        [{ kind := .other, start := 0, stp := some 4, payload := [], nid := none, refs := [] },
+         { kind := .note, start := 2, stp := some 4, payload := [60, 1, 1], nid := some "a", refs := [] }] }
+      [⟨0, 4, 0⟩, ⟨0, 4, 4⟩]).duration = some (sumInt (visitLens [⟨0, 4, 0⟩, ⟨0, 4, 4⟩])) := by
+  apply length_sum _ _ ⟨0, 4, 4⟩
+  · exact ⟨rfl, rfl, trivial⟩
+  · intro v hv; simp at hv; rcases hv with rfl | rfl <;> decide
+  · rfl
+  · intro v hv; simp at hv; subst hv; decide
+  · intro o ho e he
+    simp at ho
+    rcases ho with rfl | rfl <;> simp at he <;> (subst he; decide)
+  · intro v hv o ho _ _ e he
+    simp at hv ho
+    rcases hv with rfl | rfl <;> rcases ho with rfl | rfl <;> simp at he <;> (subst he; decide)
+  · exact ⟨_, List.mem_cons_self, by decide, rfl, rfl, rfl⟩
+
+-- non-vacuity of `copies_count`: the note of segment B in path A-B-B is copied twice
+example :
+    let g : List Seg := [{ start := 0, stp := 4, to := [.seg 1], await := [], ty := .leapEnd },
+                         { start := 4, stp := 8, to := [.seg 1, .fin], await := [], ty := .dflt }]
+    let p : APart := { points := [0, 4, 8], qd := [(0, 1)], objs :=
+      [{ kind := .note, start := 0, stp := some 4, payload := [60, 1, 1], nid := some "a", refs := [] },
+       { kind := .note, start := 4, stp := some 8, payload := [62, 1, 1], nid := some "b", refs := [] }] }
+    visitsOf g [0, 1, 1] = some [⟨0, 4, 0⟩, ⟨4, 8, 4⟩, ⟨4, 8, 8⟩] ∧
+    (((variant p [⟨0, 4, 0⟩, ⟨4, 8, 4⟩, ⟨4, 8, 8⟩]).objs.filter keepP).filter fun c => decide (c.orig = 1)).length = 2 ∧
+    getPaths g false true true 9 = some [[0, 1, 1]] := by decide
+
 -- non-vacuity of the part theorems: a tie from a note in segment [0,4) to a note in [4,8), path A-B-B
 example :
     let p : APart := { points := [0, 2, 4, 8], qd := [(0, 1)], objs :=
@@ -280,6 +316,10 @@ theorem simple_repeats (flags : List Bool) (tys : List SegType) (times : List (I
     getPaths (chainGraph flags tys times) true false il fuel = some [minPath 0 flags] :=
   simple_repeats_aux flags tys times hty il fuel hf hne
 
+-- non-vacuity: three sections, the last two repeated: 4 paths
+example : getPaths (chainGraph [false, true, true] [] []) false false true 7 =
+    some [[0, 1, 1, 2, 2], [0, 1, 1, 2], [0, 1, 2, 2], [0, 1, 2]] := by decide
+
 /-- each repeated section occurs exactly twice in the maximal path and once in the minimal one; the other
 sections once -/
 theorem max_min_counts (flags : List Bool) (i : Nat) (b : Bool) (h : flags[i]? = some b) :
@@ -292,6 +332,36 @@ unrepeated sections adjacent since such sections form one segment), not for symb
 the correspondence compares the segment table on every generated layout. -/
 theorem simple_repeats_layout_partial :
     ∀ flags ∈ flagTable, mkSegments (gridLayout flags) = some (chainGraph flags (gridTys flags) (gridTimes flags)) := by
+  decide +kernel
+
+/-- One repeat with endings 1..k, one number per bracket, ANY k ≥ 1, with or without music before the repeat and
+after the last ending: on the segment table of that shape (the section offers the brackets in order, every
+bracket but the last jumps back to the section, the last one goes on) the maximal unfolding is the single path
+"section, ending 1, section, ending 2, …, section, ending k" and the minimal one "section, ending k"; fuel
+2k+4 suffices (the enumeration terminates). -/
+theorem voltas (pre post : Bool) (k : Nat) (hk : 1 ≤ k) (tys : Nat → SegType) (tms : Nat → Int × Int)
+    (hty : ∀ i, tys i ≠ SegType.leapStart) (il : Bool) (fuel : Nat) (hf : 2 * k + 4 ≤ fuel) :
+    getPaths (voltaGraph pre k post tys tms) false true il fuel = some [voltaMaxPath pre k post] ∧
+    getPaths (voltaGraph pre k post tys tms) true false il fuel = some [voltaMinPath pre k post] :=
+  volta_paths_aux pre k post tys tms il hty hk fuel hf
+
+/-- … where pass i (counting from 0) of the maximal path is the section followed by bracket i -/
+theorem voltas_pass_order (pre post : Bool) (k i : Nat) (h : i < k) :
+    (vPasses (vBody pre) 0 k)[2 * i]? = some (vBody pre) ∧
+    (vPasses (vBody pre) 0 k)[2 * i + 1]? = some (vBody pre + 1 + i) := by
+  have := vPasses_get (vBody pre) k 0 i h
+  simpa using this
+
+-- non-vacuity: four endings after one bar of lead-in
+example : getPaths (voltaGraph true 4 false (fun _ => .dflt) (fun _ => (0, 0))) false true true 12 =
+    some [[0, 1, 2, 1, 3, 1, 4, 1, 5]] := by decide
+
+/-- PARTIAL (finite table): `add_segments` builds exactly the table `voltaGraph` for the layouts with k ≤ 3
+single-number brackets on a grid (with/without lead-in and rest); symbolic times and k > 3 are covered by the
+correspondence only. -/
+theorem voltas_layout_partial :
+    ∀ c ∈ voltaSingles,
+      mkSegments (voltaLayout c) = some (voltaGraph c.pre c.mult.length c.post gridVoltaTy (gridVoltaTm c.pre)) := by
   decide +kernel
 
 /-- One repeat with endings 1..k (k ≤ 3, brackets carrying one or two numbers, with or without music before
